@@ -1,42 +1,74 @@
 """C18 -- configuration layering follows the documented precedence.
 
 S->C: every case TLC enumerates from Config.tla (chains of config files x command line x queried
-module, plus malformed configurations) is realised as real TOML files and looked up through
-pyanalyze.options; C->S: the recorded (case, real value) lines are adjudicated by TLC against
-ConfigTrace.tla (RefLookup = the documented precedence; ImplLookup = the transcription of options.py).
+module, plus malformed configurations) is realised as real TOML files and looked up through the real
+code by the route the case names:
+
+  inst    Options.from_option_list([cls(v, from_command_line=True)], config_file_path=...)
+  kwargs  NameCheckVisitor.prepare_constructor_kwargs({...})          (command-line assembly)
+  argv    NameCheckVisitor.main() on a real sys.argv                  (argparse + main + assembly)
+  proc    `python -m pyanalyze --config-file f1.toml <flags> --display-options` in a subprocess
+          (a sample of the argv cases; the displayed values are parsed)
+
+C->S: the recorded (case, real value, command-line instances) lines are adjudicated by TLC against
+ConfigTrace.tla (RefLookup = the documented precedence; ImplLookup / ImplCmdValues = the transcription
+of options.py and of the command-line assembly).
 """
 from __future__ import annotations
 
+import ast
 import json
 import os
 import random
+import re
 import shutil
+import subprocess
+import sys
+import time
+import types
+from concurrent.futures import ThreadPoolExecutor
 from pathlib import Path
 from typing import Any
 
-from .. import core, tlaparse
+from .. import core, tlaparse  # noqa: F401
 
 LEVEL = "model_checking"
 
-# real options standing for the three kinds
+# real options standing for the kinds
 BOOL_OPT = {"T": "undefined_name", "F": "missing_f"}  # default enabled / default disabled
-INT_OPT = "maximum_positional_args"
-LIST_OPT = "extra_builtins"
+KIND_OPT = {
+    "flag": "for_loop_always_entered",
+    "int": "maximum_positional_args",
+    "list": "extra_builtins",
+    "paths": "import_paths",
+    "files": "paths",
+}
+INT_VAL = {"v1": 5, "v2": 0}
 
 
 def _opt_name(case: dict) -> str:
     if case["kind"] == "bool":
         return BOOL_OPT[case["default"][0]]
-    return INT_OPT if case["kind"] == "int" else LIST_OPT
+    return KIND_OPT[case["kind"]]
 
 
 def _toml_value(case: dict, v: str, tag: str) -> str:
     k = case["kind"]
-    if k == "bool":
+    if k in ("bool", "flag"):
         return "true" if v == "v1" else "false"
     if k == "int":
-        return "1" if v == "v1" else "2"
-    return json.dumps([tag])
+        return str(INT_VAL[v])
+    return json.dumps([tag] if v == "v1" else [])
+
+
+_WRONG = {
+    # a TOML value of another type than the option's
+    "wrong_type": {"bool": '"yes"', "flag": '"yes"', "int": '"many"', "list": "3", "paths": '"x"', "files": "3"},
+    # the near-miss type (bool for int, string for bool, string for a list)
+    "bool_for_int": {"bool": '"true"', "flag": '"true"', "int": "true", "list": '"x"', "paths": "true", "files": '"x"'},
+    # a list whose element has the wrong type
+    "wrong_elem_type": {"list": "[3]", "paths": '["x", 3]', "files": "[true]"},
+}
 
 
 def _section_items(case: dict, sec: dict, tag: str, bad: str | None) -> list[str]:
@@ -48,26 +80,26 @@ def _section_items(case: dict, sec: dict, tag: str, bad: str | None) -> list[str
         items.append("disable_all = true")
     if bad == "unknown_key":
         items.append("no_such_option_xyz = true")
-    elif bad == "bool_for_int":
-        # TOML `true` where an integer is expected (for the other kinds: a string where a bool / list is expected)
-        wrong = {"bool": '"true"', "int": "true", "list": '"x"'}[case["kind"]]
-        items = [it for it in items if not it.startswith(name + " =")]
-        items.append(f"{name} = {wrong}")
     elif bad == "disable_all_not_bool":
         items = [it for it in items if not it.startswith("disable_all")]
         items.append('disable_all = "yes"')
-    elif bad == "wrong_type":
-        wrong = {"bool": '"yes"', "int": '"many"', "list": "3"}[case["kind"]]
+    elif bad in _WRONG:
         # replace/add the option with a value of the wrong TOML type
         items = [it for it in items if not it.startswith(name + " =")]
-        items.append(f"{name} = {wrong}")
+        items.append(f"{name} = {_WRONG[bad][case['kind']]}")
     return items
 
 
-def write_files(case: dict, d: Path) -> Path:
+def _dir(layout: str, i: int) -> str:
+    return "d1" if layout == "flat" else "/".join(f"d{k}" for k in range(1, i + 1))
+
+
+def write_files(case: dict, root: Path) -> Path:
+    """Realise the chain of files of the case under `root`; returns the main file."""
     files = case["files"]
     n = len(files)
     bad = case["bad"]
+    layout = case.get("layout", "flat")
     for i, f in enumerate(files, start=1):
         here = bad != "none" and case["badfile"] == i
         loc = case["badloc"]
@@ -84,24 +116,34 @@ def write_files(case: dict, d: Path) -> Path:
             items = _section_items(case, sec, f"f{i}.{name}", ova_bad if key == "ova" else None)
             if here and bad == "nested_overrides" and key == "ova":
                 items.append("overrides = []")
-            if not (here and bad == "override_without_module" and key == "ova"):
+            if here and bad == "module_not_string" and key == "ova":
+                items.insert(0, "module = 3")
+            elif not (here and bad == "override_without_module" and key == "ova"):
                 items.insert(0, f'module = "{mod}"')
             ovs.append("{" + ", ".join(items) + "}")
         if f.get("abfirst"):
             ovs.reverse()
+        if here and bad == "override_not_table":
+            ovs.append("3")
         ov_line = [f"overrides = [{', '.join(ovs)}]"] if ovs else []
         if here and bad == "overrides_not_list":
             ov_line = ['overrides = "a"']
         ext_line = []
         if i < n:
-            ext_line = [f'extend_config = "f{i + 1}.toml"']
+            # a RELATIVE path, resolved against the directory of the including file
+            nxt = f"f{i + 1}.toml" if layout == "flat" else f"d{i + 1}/f{i + 1}.toml"
+            ext_line = [f'extend_config = "{nxt}"']
         if here and bad == "recursive" and i == n:
-            ext_line = ['extend_config = "f1.toml"']
+            # back to the main file: self-inclusion for n = 1, a 2-cycle (3-cycle) for n = 2 (3)
+            back = os.path.relpath(root / _dir(layout, 1) / "f1.toml", root / _dir(layout, i))
+            ext_line = [f'extend_config = "{back}"']
         if here and bad == "missing_file" and i == n:
             ext_line = ['extend_config = "does_not_exist.toml"']
         if here and bad in ("recursive", "missing_file") and i < n:
             # defect in a non-final file: point it at itself / nowhere instead of the next file
             ext_line = ['extend_config = "f%d.toml"' % i] if bad == "recursive" else ['extend_config = "nope.toml"']
+        if here and bad == "extend_not_string":
+            ext_line = ["extend_config = 3"]
         pos = f["extpos"]
         if pos == "first":
             body = ext_line + lines + ov_line
@@ -109,82 +151,411 @@ def write_files(case: dict, d: Path) -> Path:
             body = lines + ext_line + ov_line
         else:
             body = lines + ov_line + ext_line
+        d = root / _dir(layout, i)
+        d.mkdir(parents=True, exist_ok=True)
         (d / f"f{i}.toml").write_text("[tool.pyanalyze]\n" + "\n".join(body) + "\n")
-    return d / "f1.toml"
+    return root / "d1" / "f1.toml"
 
 
-def real_lookup(case: dict, d: Path) -> list[str]:
+def _clean(root: Path) -> None:
+    for p in root.glob("d1/**/*.toml"):
+        p.unlink()
+
+
+# ------------------------------------------------------------------------------------------------
+# the command line of a case
+
+
+def _cmd_value(case: dict) -> Any:
+    """The Python value handed to the command-line layer on the routes "inst" and "kwargs"."""
+    k, v = case["kind"], case["cmd"]
+    if k in ("bool", "flag"):
+        return v == "v1"
+    if k == "int":
+        return INT_VAL[v]
+    if k == "paths":
+        return [Path("cmd")] if v == "v1" else []
+    return ["cmd"] if v == "v1" else []  # list, files
+
+
+def argv_tokens(case: dict) -> list[str]:
+    """Spell the abstract tokens of case.argv as real command-line arguments."""
+    flag = "--" + _opt_name(case).replace("_", "-")
+    out: list[str] = []
+    for tok in case["argv"]:
+        if tok == "pos":
+            out.append(flag)
+        elif tok == "neg":
+            out.append("--no-" + flag[2:])
+        elif tok in ("v1", "v2"):
+            out += [flag, str(INT_VAL[tok])]
+        elif tok in ("a1", "a2"):
+            out += [flag, "cmd" if tok == "a1" else "cmd2"]
+        elif tok in ("f1", "f2"):
+            out.append("cmd" if tok == "f1" else "cmd2")
+        elif tok == "en":
+            out += ["-e", _opt_name(case)]
+        elif tok == "dis":
+            out += ["-d", _opt_name(case)]
+        elif tok == "enall":
+            out.append("--enable-all")
+        elif tok == "disall":
+            out.append("--disable-all")
+        else:
+            raise core.MachineryError(f"unknown argv token {tok!r}")
+    return out
+
+
+_captured: list[Any] = []
+_patched = False
+_classes: dict[str, Any] = {}
+
+
+def _patch_display() -> None:
+    """`--display-options` makes prepare_constructor_kwargs call options.display() and sys.exit(0) before a
+    Checker is built.  In this (harness) process display() is replaced by a recorder, so that the Options
+    object assembled by the real main() / prepare_constructor_kwargs can be queried for any module.  The
+    unpatched display() is exercised by the subprocess route."""
+    global _patched
+    if _patched:
+        return
+    from pyanalyze.options import Options
+
+    Options.display = lambda self: _captured.append(self)  # type: ignore[method-assign]
+    _patched = True
+
+
+def _class_with_config(root: Path) -> Any:
+    """A visitor class that declares its own configuration file (config_filename, relative to the
+    directory of the module that defines the class)."""
+    key = str(root)
+    if key not in _classes:
+        from pyanalyze.name_check_visitor import NameCheckVisitor
+
+        modname = "c18_fake_module_%d" % len(_classes)
+        mod = types.ModuleType(modname)
+        mod.__file__ = str(root / "d1" / "visitor_module.py")
+        sys.modules[modname] = mod
+        _classes[key] = type("ConfiguredVisitor", (NameCheckVisitor,), {"config_filename": "f1.toml", "__module__": modname})
+    return _classes[key]
+
+
+def _assemble(case: dict, root: Path, main: Path) -> Any:
+    """Run the real command-line assembly of the case's route; returns the real Options object."""
     from pyanalyze.error_code import ErrorCode
-    from pyanalyze.options import ConfigOption, InvalidConfigOption, Options
+    from pyanalyze.name_check_visitor import NameCheckVisitor
+    from pyanalyze.options import ConfigOption, Options
+
+    name = _opt_name(case)
+    route = case["route"]
+    if route == "inst":
+        inst = []
+        if case["cmd"] != "none":
+            inst.append(ConfigOption.registry[name](_cmd_value(case), from_command_line=True))
+        return Options.from_option_list(inst, config_file_path=main)
+    _patch_display()
+    del _captured[:]
+    old_argv = sys.argv
+    try:
+        if route == "kwargs":
+            kwargs: dict[str, Any] = {"display_options": True}
+            cls = NameCheckVisitor
+            if case["cfgsrc"] == "arg":
+                kwargs["config_file"] = main
+            elif case["cfgsrc"] == "class":
+                cls = _class_with_config(root)
+            if case["cmd"] != "none":
+                if case["kind"] == "bool":
+                    kwargs["settings"] = {getattr(ErrorCode, name): _cmd_value(case)}
+                elif case["kind"] == "files":
+                    kwargs["files"] = _cmd_value(case)
+                else:
+                    kwargs[name] = _cmd_value(case)
+            cls.prepare_constructor_kwargs(kwargs)
+        elif route == "argv":
+            sys.argv = ["pyanalyze", "--config-file", str(main), "--display-options", *argv_tokens(case)]
+            NameCheckVisitor.main()
+        else:
+            raise core.MachineryError(f"unknown route {route!r}")
+    except SystemExit as exc:
+        if exc.code not in (0, None) or len(_captured) != 1:
+            raise
+        return _captured.pop()
+    finally:
+        sys.argv = old_argv
+    raise core.MachineryError("command-line assembly returned without displaying the options")
+
+
+def _encode(case: dict, cls: Any, val: Any, root: Path) -> list[str]:
+    k = case["kind"]
+    if k in ("bool", "flag"):
+        return ["T" if val else "F"] if isinstance(val, bool) else [repr(val)]
+    if k == "int":
+        return [{5: "i5", 0: "i0", cls.default_value: "d"}.get(val, repr(val))]
+    if k == "list":
+        return ["dflt" if x in cls.default_value else str(x) for x in val]
+    out = []
+    for x in val:
+        p = Path(x)
+        if p.is_absolute():
+            try:
+                out.append(p.relative_to(root).as_posix())
+                continue
+            except ValueError:
+                pass
+        out.append(str(x))
+    return out
+
+
+def real_lookup(case: dict, root: Path) -> tuple[list[str], list[list[str]]]:
+    from pyanalyze.error_code import ErrorCode
+    from pyanalyze.options import ConfigOption, InvalidConfigOption
 
     name = _opt_name(case)
     cls = ConfigOption.registry[name]
-    main = write_files(case, d)
-    inst = []
-    if case["cmd"] != "none":
-        k = case["kind"]
-        if k == "bool":
-            v: Any = case["cmd"] == "v1"
-        elif k == "int":
-            v = 1 if case["cmd"] == "v1" else 2
-        else:
-            v = ["cmd"]
-        inst.append(cls(v, from_command_line=True))
+    main = write_files(case, root)
     try:
-        opts = Options.from_option_list(inst, config_file_path=main).for_module(tuple(case["q"]))
+        raw = _assemble(case, root, main)
+        opts = raw.for_module(tuple(case["q"]))
         if case["kind"] == "bool":
             val = opts.is_error_code_enabled(getattr(ErrorCode, name))
             val2 = opts.get_value_for(cls)
             if val != val2:
-                return ["inconsistent", repr(val), repr(val2)]
+                return ["inconsistent", repr(val), repr(val2)], []
         else:
             val = opts.get_value_for(cls)
     except InvalidConfigOption:
-        return ["error"]
-    except Exception as exc:  # any other exception is not "a configuration error"
-        return ["raised", type(exc).__name__]
-    if case["kind"] == "bool":
-        return ["T" if val else "F"]
-    if case["kind"] == "int":
-        return [{1: "i1", 2: "i2", cls.default_value: "d"}.get(val, repr(val))]
-    return ["dflt" if x in cls.default_value else str(x) for x in val]
+        return ["error"], []
+    except core.MachineryError:
+        raise
+    except BaseException as exc:  # any other exception (or exit) is not "a configuration error"
+        return ["raised", type(exc).__name__], []
+    cmdinsts = [_encode(case, cls, i.value, root) for i in raw.options.get(name, []) if i.from_command_line]
+    return _encode(case, cls, val, root), cmdinsts
+
+
+def _observe_chunk(cases: list[dict]) -> list[dict]:
+    root = core.new_dir("c18-files").resolve()
+    out = []
+    for case in cases:
+        _clean(root)
+        real, cmdinsts = real_lookup(case, root)
+        out.append({"case": case, "real": real, "cmdinsts": cmdinsts})
+    shutil.rmtree(root, ignore_errors=True)
+    return out
 
 
 def observe(cases: list[dict]) -> list[dict]:
-    d = core.new_dir("c18-files")
-    obs = []
-    for tid, case in enumerate(cases):
-        for p in d.glob("*.toml"):
-            p.unlink()
-        real = real_lookup(case, d)
-        obs.append({"tid": tid, "case": case, "real": real})
-    shutil.rmtree(d, ignore_errors=True)
+    import pyanalyze.name_check_visitor  # noqa: F401  (imported before forking)
+
+    core.scratch()  # created in the parent, so that the forked workers share (and the parent removes) it
+
+    chunks = [cases[i : i + 400] for i in range(0, len(cases), 400)]
+    parts = core.pmap(_observe_chunk, chunks, chunk=1)
+    obs = [o for part in parts for o in part]
+    for tid, o in enumerate(obs):
+        o["tid"] = tid
     return obs
+
+
+# ------------------------------------------------------------------------------------------------
+# route "proc": the real program
+
+
+_RE_VALUE = re.compile(r"^    (\w+) \(value: (.*)\)$")
+_RE_INST = re.compile(r"^        (.*) \(([^()]*)\)$")
+
+
+def _parse_displayed(text: str) -> Any:
+    return ast.literal_eval(re.sub(r"PosixPath\(('[^']*')\)", r"\1", text))
+
+
+def _observe_proc(case: dict) -> dict:
+    """`python -m pyanalyze --config-file d1/f1.toml <flags> --display-options` for one argv case with q = ()."""
+    from pyanalyze.options import ConfigOption
+
+    root = core.new_dir("c18-proc").resolve()
+    main = write_files(case, root)
+    name = _opt_name(case)
+    cls = ConfigOption.registry[name]
+    env = core.repo_env()
+    env["PYTHONPATH"] = str(core.REPO)
+    cmd = [sys.executable, "-m", "pyanalyze", "--config-file", str(main), "--display-options", *argv_tokens(case)]
+    proc = subprocess.run(cmd, cwd=root, env=env, stdout=subprocess.PIPE, stderr=subprocess.PIPE, text=True, timeout=600)
+    shutil.rmtree(root, ignore_errors=True)
+    o = {"case": case, "src": "proc", "cmdinsts": []}
+    if proc.returncode != 0:
+        last = (proc.stderr.strip().splitlines() or ["?"])[-1]
+        o["real"] = ["error"] if "InvalidConfigOption" in last else ["raised", last[:80]]
+        return o
+    value = None
+    insts: list[list[str]] = []
+    cur = None
+    for line in proc.stdout.splitlines():
+        m = _RE_VALUE.match(line)
+        if m:
+            cur = m.group(1)
+            if cur == name:
+                value = _parse_displayed(m.group(2))
+            continue
+        mi = _RE_INST.match(line)
+        if mi and cur == name and "from command line" in mi.group(2):
+            insts.append(_encode(case, cls, _parse_displayed(mi.group(1)), root))
+    if value is None:
+        raise core.MachineryError(f"--display-options did not show {name}: {proc.stdout[:300]}")
+    o["real"] = _encode(case, cls, value, root)
+    o["cmdinsts"] = insts
+    return o
+
+
+def observe_proc(cases: list[dict]) -> list[dict]:
+    with ThreadPoolExecutor(8) as ex:
+        obs = list(ex.map(_observe_proc, cases))
+    for tid, o in enumerate(obs):
+        o["tid"] = tid
+    return obs
+
+
+# ------------------------------------------------------------------------------------------------
+
+
+class _phase:
+    """Wall-clock seconds per phase of the run, recorded in the evidence (coverage.phase_wall_s)."""
+
+    def __init__(self, check: core.Check, name: str):
+        self.check, self.name = check, name
+
+    def __enter__(self) -> None:
+        self.t0 = time.time()
+
+    def __exit__(self, *exc: Any) -> None:
+        d = self.check.cov.setdefault("phase_wall_s", {})
+        d[self.name] = round(d.get(self.name, 0.0) + time.time() - self.t0, 1)
 
 
 def _case_key(case: dict) -> str:
     return core.canon(case)
 
 
-def judge(check: core.Check, cases: list[dict], label: str) -> None:
-    obs = observe(cases)
-    verdicts, stats = core.adjudicate("ConfigTrace", "ConfigTrace.cfg", obs, batch=25000, parallel=8)
+def _nontrivial(c: dict) -> bool:
+    return len(c["files"]) > 1 or c["bad"] != "none" or c["cmd"] != "none" or bool(c["argv"])
+
+
+def judge_obs(check: core.Check, obs: list[dict], label: str) -> dict[Any, list[str]]:
+    with _phase(check, "adjudicate(TLC)"):
+        verdicts, stats = core.adjudicate("ConfigTrace", "ConfigTrace.cfg", obs, batch=12000, parallel=12)
     check.add_trace_stats(stats)
     check.evals(len(obs))
     for o in obs:
         vs = verdicts.get(o["tid"], [])
         c = o["case"]
-        if len(c["files"]) > 1 or c["bad"] != "none" or c["cmd"] != "none":
+        if _nontrivial(c):
             check.nontrivial(_case_key(c))
         for v in vs:
             if v.startswith("viol:"):
-                check.violation(_case_key(c), v[5:], {"case": c, "real": o["real"], "source": label})
+                check.violation(_case_key(c), v[5:], {"case": c, "real": o["real"], "cmdinsts": o["cmdinsts"], "source": label})
             elif v.startswith("drift:"):
-                check.drift({"case": c, "real": o["real"]})
+                check.drift({"case": c, "real": o["real"], "cmdinsts": o["cmdinsts"], "what": v})
+            else:
+                raise core.MachineryError(f"unexpected verdict {v!r}")
     for o in obs[:: max(1, len(obs) // 3)][:3]:
-        check.sample({"source": label, **o})
+        check.sample({"source": label, **o}, limit=12)
+    return verdicts
 
 
+def judge(check: core.Check, cases: list[dict], label: str) -> None:
+    with _phase(check, "replay(real code)"):
+        obs = observe(cases)
+    judge_obs(check, obs, label)
+
+
+def _defaults(case: dict) -> dict:
+    """Cases recorded before the command-line stage existed (replay witnesses) lack its fields."""
+    c = dict(case)
+    c.setdefault("route", "inst")
+    c.setdefault("argv", [])
+    c.setdefault("cfgsrc", "arg")
+    c.setdefault("layout", "flat")
+    return c
+
+
+# ------------------------------------------------------------------------------------------------
+# sensitivity
+
+
+_SENS = [
+    ("Config.pinned.cfg", "PinnedFollowsDocs", "priority never stored (pinned commit)"),
+    ("Config.dropfalsy.cfg", "DropFalsyFollowsDocs", "assembly drops falsy command-line values (--no-flag, --int 0, [])"),
+    ("Config.dropdefault.cfg", "DropDefaultSettingsFollowsDocs", "assembly drops -e/-d settings equal to the built-in default"),
+    ("Config.maindir.cfg", "MainDirFollowsDocs", "path entries resolved against the main file's directory"),
+]
+
+
+def sensitivity(check: core.Check) -> None:
+    """Every seeded variant of the Impl model must be rejected by TLC; a corrupted real observation must be
+    rejected by the trace specification."""
+
+    def one(item: tuple[str, str, str]) -> core.TLCResult:
+        return core.run_tlc("Config", item[0], workers=4, timeout=900)
+
+    with ThreadPoolExecutor(len(_SENS)) as ex:
+        results = list(ex.map(one, _SENS))
+    for (cfg, inv, what), res in zip(_SENS, results):
+        if res.violated != inv:
+            raise core.MachineryError(f"sensitivity self-test failed: model with [{what}] not rejected ({cfg}): {res.error}")
+    # corrupted observations: a real code that let the lower layer win over a falsy command-line value
+    base = {"files": [{"top": {"val": "v1", "da": False}, "ova": {"val": "absent", "da": False},
+                       "ovab": {"val": "absent", "da": False}, "abfirst": False, "extpos": "first"}],
+            "q": [], "bad": "none", "badfile": 0, "badloc": "top", "cfgsrc": "arg", "layout": "flat"}
+    corrupted = [
+        {**base, "kind": "flag", "default": ["F"], "route": "argv", "argv": ["neg"], "cmd": "none", "_real": ["T"], "_ci": []},
+        {**base, "kind": "int", "default": ["d"], "route": "kwargs", "argv": [], "cmd": "v2", "_real": ["i5"], "_ci": []},
+        {**base, "kind": "paths", "default": [], "route": "kwargs", "argv": [], "cmd": "v2", "_real": ["d1/f1.top"], "_ci": []},
+        {**base, "kind": "bool", "default": ["T"], "route": "argv", "argv": ["disall", "en"], "cmd": "none", "_real": ["F"], "_ci": [["F"]]},
+        # right value, but the command-line instance is missing: drift of the assembly model, not a violation
+        {**base, "kind": "flag", "default": ["F"], "route": "argv", "argv": ["neg"], "cmd": "none", "_real": ["F"], "_ci": [],
+         "files": [dict(base["files"][0], top={"val": "none", "da": False})]},
+    ]
+    obs = []
+    for tid, c in enumerate(corrupted):
+        c = dict(c)
+        real, ci = c.pop("_real"), c.pop("_ci")
+        obs.append({"tid": tid, "case": c, "real": real, "cmdinsts": ci})
+    verdicts, _ = core.adjudicate("ConfigTrace", "ConfigTrace.cfg", obs)
+    want = {0: "viol:CommandLineValueWins", 1: "viol:CommandLineValueWins", 2: "viol:CommandLineValueWins",
+            3: "viol:CommandLineValueWins", 4: "drift:ImplCmdInsts"}
+    got = {tid: (verdicts.get(tid) or ["ok"])[0] for tid in want}
+    if got != want:
+        raise core.MachineryError(f"sensitivity self-test failed: corrupted observations judged {got}, expected {want}")
+    check.cov["sensitivity"] = (
+        "TLC rejects each seeded Impl model: " + "; ".join(f"{what} -> {inv} violated" for _, inv, what in _SENS)
+        + "; ConfigTrace rejects 4 corrupted observations (lower layer winning over a falsy / specific command-line "
+        "value) and reports a missing command-line instance as drift"
+    )
+
+
+# ------------------------------------------------------------------------------------------------
+
+
+# What TLC prints for replay (ConfigSim.tla): every state is model-checked, the printed cases are thinned out by a
+# deterministic hash where the space is larger than what is replayed: (modulus for the error-code kind, modulus for
+# the other kinds); 1 = every case.  Malformed configurations are always printed.
+EMIT = {
+    "Config.quick.cfg": (24, 4),
+    "Config.thorough.cfg": (128, 8),
+    "Config.cmdline.cfg": (4, 1),
+    "Config.cmdline3.cfg": (16, 2),
+}
+
+
+def _model_check(check: core.Check, cfg: str, what: str) -> tuple[core.TLCResult, list[dict]]:
+    mod_bool, mod_rest = EMIT[cfg]
+    env = {"C18_EMIT_MOD": str(mod_bool), "C18_EMIT_MOD_REST": str(mod_rest), "C18_EMIT_REM": str(check.seed % 9973)}
+    res = core.require_ok(core.run_tlc("ConfigSim", cfg, timeout=6000, env=env), what)
+    cases = core.emitted_json(res)
+    if not cases:
+        raise core.MachineryError(f"no cases printed by TLC for {cfg}")
+    return res, cases
 
 
 def run(check: core.Check) -> None:
@@ -192,40 +563,83 @@ def run(check: core.Check) -> None:
     rnd = random.Random(check.seed)
     check.assumptions += [
         "TLC 1.8.0 and the TLA+ definitions of Config.tla (RefLookup = documented precedence)",
-        "real TOML files are parsed by the repository's own tomli; three real options stand for the kinds "
-        "(undefined_name / missing_f, max_positional_args, extra_builtins)",
+        "real TOML files are parsed by the repository's own tomli; real options stand for the kinds: undefined_name / "
+        "missing_f (error codes), for_loop_always_entered (flag), maximum_positional_args (int, default 10), "
+        "extra_builtins (concatenated list), import_paths (path list), paths (path list fed by positional files)",
+        "routes kwargs/argv: in the harness process Options.display is replaced by a recorder so that the Options "
+        "object assembled by the real prepare_constructor_kwargs / main() can be queried per module; the unpatched "
+        "display is exercised by the subprocess sample (module () only)",
+        "path-sequence options are one value (first statement wins), as PathSequenceOption is not a ConcatenatedOption; "
+        "a command line with both -e X and -d X is outside the domain",
     ]
-    # 1. the design: exhaustive model checking of ImplLookup = RefLookup
+    core.scratch()
+    # 1. the design: exhaustive model checking of ImplLookup = RefLookup on every state of
+    #    (a) the layering slice: rich main file, route "inst";
+    #    (b) the command-line slice: every kind x {absent, falsy, truthy} on the command line (as kwargs and as every
+    #        argv of <= 2 tokens) x {absent, falsy, truthy} in override / top level / extended file x defaults;
+    #    the sensitivity self-tests (seeded Impl models must be rejected by the same invariant) and the random
+    #    simulation of the rich 3-file space (beyond the exhaustive bound) run at the same time.
     cfg = "Config.quick.cfg" if quick else "Config.thorough.cfg"
-    res = core.require_ok(core.run_tlc("ConfigSim", cfg, timeout=3000), "Config exhaustive")
-    check.add_tlc("exhaustive:" + cfg, res)
-    cases = core.emitted_json(res)
-    if not cases:
-        raise core.MachineryError("no cases in TLC dump")
-    # sensitivity: the pinned (pre-fix) behaviour must be rejected by the same invariant
-    pin = core.run_tlc("Config", "Config.pinned.cfg", timeout=600)
-    if pin.violated != "PinnedFollowsDocs":
-        raise core.MachineryError("sensitivity self-test failed: pinned priority handling not rejected by the model")
-    check.cov["sensitivity"] = "model with priority never stored (pinned commit) violates LayeringFollowsDocs, as expected"
-    # 2. S->C replay of TLC's cases through the real code, adjudicated by TLC
-    limit = 60000 if quick else 600000
-    exhaustive = len(cases) <= limit
-    if not exhaustive:
-        bad = [c for c in cases if c["bad"] != "none"]
-        good = [c for c in cases if c["bad"] == "none"]
-        cases = bad + rnd.sample(good, limit - len(bad))
-    check.cov["exhaustive"] = exhaustive
-    check.cov["model_cases"] = len(cases)
+    cfg2 = "Config.cmdline.cfg" if quick else "Config.cmdline3.cfg"
+    with _phase(check, "TLC: model checking, sensitivity, simulation (concurrent)"):
+        with ThreadPoolExecutor(4) as ex:
+            f_a = ex.submit(_model_check, check, cfg, "Config layering slice")
+            f_b = ex.submit(_model_check, check, cfg2, "Config command-line slice")
+            f_s = ex.submit(sensitivity, check)
+            f_sim = ex.submit(core.simulate_cases, "ConfigSim", "Config.sim.cfg", 3000 if quick else 60000,
+                              depth=8, seed=check.seed + 1, check=check)
+            res, cases = f_a.result()
+            res2, cl_cases = f_b.result()
+            f_s.result()
+            sim_cases = f_sim.result()
+    check.add_tlc("exhaustive:" + cfg, res, printed_cases=len(cases), print_moduli=EMIT[cfg])
+    check.add_tlc("exhaustive:" + cfg2, res2, printed_cases=len(cl_cases), print_moduli=EMIT[cfg2])
+    # 2. S->C replay of the printed cases through the real code, adjudicated by TLC
+    capped = False
+    for lst, limit in ((cases, 50000 if quick else 700000), (cl_cases, 130000 if quick else 900000)):
+        if len(lst) > limit:  # safety cap only: the moduli above are chosen to stay below it
+            capped = True
+            bad = [c for c in lst if c["bad"] != "none"]
+            good = [c for c in lst if c["bad"] == "none"]
+            lst[:] = bad + rnd.sample(good, limit - len(bad))
+    full = {
+        "layering_slice": EMIT[cfg] == (1, 1) and not capped,
+        "cmdline_slice_error_code_kind": EMIT[cfg2][0] == 1 and not capped,
+        "cmdline_slice_other_kinds": EMIT[cfg2][1] == 1 and not capped,
+    }
+    check.cov["exhaustive"] = all(full.values())
+    check.cov["replayed_exhaustively"] = full
+    check.cov["model_cases"] = len(cases) + len(cl_cases)
+    check.cov["cmdline_cases"] = len(cl_cases)
     check.cov["rule"] = (
-        "cases = states with stage=done of Config.tla (chain of <=MaxFiles files x cmdline x query x kind, plus "
-        "malformed configs); non-trivial = more than one file, or a command-line value, or malformed"
+        "TLC checks ImplLookup = RefLookup on every state; replayed cases = the states with stage=done that ConfigSim "
+        "prints (all malformed ones; of the others a deterministic hash sample 1/m, m per slice and kind in "
+        f"tlc_runs[].print_moduli = (error-code kind, other kinds)). Layering slice ({cfg}, route inst): chain of "
+        f"<= {2 if quick else 3} files (rich main file: overrides a and a.b in both orders, extend_config first/mid/last, "
+        "disable_all) x cmdline {absent,falsy,truthy} x 4 queried modules x kind {bool,int,list}, plus malformed configs. "
+        f"Command-line slice ({cfg2}): kinds {{bool,flag,int,list,paths,files}} x chains of <= {2 if quick else 3} slim "
+        "files (top + override a, each {absent,falsy,truthy}, disable_all at top level; flat and nested directories) x "
+        "routes {kwargs (config file given / declared by the class / none), argv (every command line of <= 2 tokens for "
+        "the option)" + ("" if quick else ", inst") + "} x 4 queried modules x defaults (incl. the truthy default 10 of "
+        "maximum_positional_args and both error-code defaults), plus 14 kinds of malformed configuration at every "
+        "file/section with and without a command-line value. Simulation: rich 3-file space, all kinds and routes. "
+        "non-trivial = more than one file, or a command-line value/argv, or malformed"
     )
     judge(check, cases, "tlc-exhaustive")
-    # 3. beyond the exhaustive bound: TLC random simulation of the rich 3-file space
-    sim_cases = core.simulate_cases("ConfigSim", "Config.sim.cfg", 3000 if quick else 60000, depth=8,
-                                    seed=check.seed + 1, check=check)
+    judge(check, cl_cases, "tlc-cmdline")
     judge(check, sim_cases, "tlc-simulate")
+    # 3. the real program for a sample of the argv cases (module () only: that is what --display-options shows)
+    argv_cases = [c for c in cl_cases if c["route"] == "argv" and c["q"] == [] and (c["argv"] or c["bad"] != "none")]
+    by_kind: dict[str, list[dict]] = {}
+    for c in argv_cases:
+        by_kind.setdefault(c["kind"], []).append(c)
+    per_kind = 6 if quick else 60
+    proc_cases = [c for k in sorted(by_kind) for c in rnd.sample(by_kind[k], min(per_kind, len(by_kind[k])))]
+    with _phase(check, "subprocess sample"):
+        proc_obs = observe_proc(proc_cases)
+    judge_obs(check, proc_obs, "subprocess --display-options")
+    check.cov["subprocess_cases"] = len(proc_obs)
 
 
 def replay(check: core.Check, witness: dict) -> None:
-    judge(check, [witness["case"]], "replay")
+    judge(check, [_defaults(witness["case"])], "replay")
